@@ -718,6 +718,7 @@ class Interp:
         self.unroll_depth = 0
         self.fn_attrs = {}
         self._rebinds = {}
+        self.arity_mismatch = {}  # call sites where some callee could not take the arguments
         self.call_edges = {}      # (caller, id(call site node)) -> functions the site was seen to call
         self.ident_counter = 0
         self.partition_unknown = False
@@ -4121,6 +4122,7 @@ class Interp:
         scope = self.scope_of(fnnode)
         bound, syms = self.bind_params(parent, fnnode, args, self_val)
         if bound is None:
+            self.arity_mismatch.setdefault(id(node), (fr.qual, node, q))
             return BOT          # arity mismatch: a TypeError, not among the judged faults
         self.call_edges.setdefault((fr.qual, id(node)), set()).add(q)
         if scope.has_yield:
